@@ -708,6 +708,11 @@ class Engine:
         fn = fr.qual
         ordn = fr.loop_ordinals.get(id(s))
         lc = self.loop_contracts.get((fn, ordn)) or self.loop_contracts.get((fn.split('.')[-1], ordn))
+        if lc is None:
+            # contracts may also be attached by the *shape* of the loop (robust against moving a loop into a helper)
+            for key, cand in self.loop_contracts.items():
+                if isinstance(key, tuple) and key and key[0] == 'match' and key[1](fn, s):
+                    lc = cand; break
         # concrete iteration: for x in <python list/tuple/range(const)>
         if isinstance(s, ast.For):
             its = self.ev(p, s.iter, fr)
